@@ -6,6 +6,7 @@
   the real result with the reference answer sequence).
 -/
 import Yld.Model.Api
+import Yld.Proofs.Restore2
 namespace Yld.C17
 
 /-- evaluate_bounded never lets a recursion-depth error escape. -/
@@ -35,5 +36,11 @@ theorem result_is_prefix (e : Engine) (m : Mode) (limit : Nat) (name : String) (
 theorem engine_state_is_querys (e : Engine) (m : Mode) (limit : Nat) (name : String) (args : List Term) (r : Option Nat) :
     (e.evaluateBounded m limit name args r).1 =
       (e.query m limit name args (match r with | some k => .raise k | none => .all)).1 := rfl
+
+/-- In every case — normal completion, recursion limit reached anywhere in the search, projection
+    raising at the k-th answer — all variables are bound afterwards exactly as before the call. -/
+theorem variables_unbound_afterwards (e : Engine) (m : Mode) (limit : Nat) (name : String) (args : List Term) (r : Option Nat) :
+    (e.evaluateBounded m limit name args r).1.w.b = e.w.b :=
+  evaluate_bounded_restores e m limit name args r
 
 end Yld.C17
